@@ -11,47 +11,57 @@ import errno
 import struct
 from typing import List
 import billiard.connection as bc
-from harness.hbase import fail, tier, Prune, PART, NPART, realize, untraced
+from harness.hbase import fail, tier, Prune, PART, NPART, realize, untraced, NDCode, CODEMAX
 
 NMAX = tier(3, 5)
+NFRAG = 2 * 4 + 2 * 3 + 4          # reads needed when every read returns one byte
 FULLFRAG = tier(False, True)     # quick: every read/write moves either one byte or as much as possible; thorough: any count
 
 
 class WPipe:
     def __init__(self, ks, eintr):
-        self.ks = ks
+        self.ks = ks          # an NDCode (solver-chosen fragment sizes) or a list (native sweeps)
         self.i = 0
         self.calls = 0
         self.eintr = eintr
         self.data = b''
+
+    def next_k(self, most):
+        if isinstance(self.ks, list):
+            if self.i >= len(self.ks):
+                raise Prune()
+            k = self.ks[self.i]
+            self.i += 1
+            if isinstance(k, bool) or not isinstance(k, int):
+                return 1 if k else most
+            if FULLFRAG:
+                if not (1 <= k <= most):
+                    raise Prune()
+                return k
+            if not (0 <= k <= 1):
+                raise Prune()
+            return 1 if k == 1 else most
+        if FULLFRAG:
+            k = self.ks.draw(1, 9)
+            if k > most:
+                raise Prune()
+            return k
+        return 1 if self.ks.draw(0, 1) == 1 else most
 
     def write(self, fd, buf):
         self.calls += 1
         if self.calls == self.eintr:
             raise OSError(errno.EINTR, 'interrupted')
         n = len(buf)
-        if self.i >= len(self.ks):
-            raise Prune()
-        k = self.ks[self.i]
-        self.i += 1
-        if FULLFRAG:
-            if not (1 <= k <= n):
-                raise Prune()
-        else:
-            if not (0 <= k <= 1):
-                raise Prune()
-            k = 1 if k == 1 else n
+        k = self.next_k(n)
         self.data += bytes(buf[:k])
         return k
 
 
-class RPipe:
+class RPipe(WPipe):
     def __init__(self, data, ks, eintr):
+        WPipe.__init__(self, ks, eintr)
         self.data = data
-        self.ks = ks
-        self.i = 0
-        self.calls = 0
-        self.eintr = eintr
 
     def read(self, fd, want):
         self.calls += 1
@@ -60,17 +70,7 @@ class RPipe:
         avail = len(self.data)
         if avail == 0:
             return b''                      # peer closed
-        if self.i >= len(self.ks):
-            raise Prune()
-        k = self.ks[self.i]
-        self.i += 1
-        if FULLFRAG:
-            if not (1 <= k <= min(want, avail)):
-                raise Prune()
-        else:
-            if not (0 <= k <= 1):
-                raise Prune()
-            k = 1 if k == 1 else min(want, avail)
+        k = self.next_k(min(want, avail))
         out, self.data = self.data[:k], self.data[k:]
         return out
 
@@ -87,24 +87,15 @@ def _release(c):
     c._handle = None          # never let __del__ close a real descriptor
 
 
-def _spart(n, use_size):
-    # NPART = 2 * (NMAX + 1): payload length x whether an explicit size is passed
-    return NPART == 1 or (n == PART % (NMAX + 1) and use_size == ((PART // (NMAX + 1)) % 2 == 1))
-
-
-def _rpart(n1, n2):
-    # NPART = (NMAX + 1) * NMAX: the two payload lengths
-    return NPART == 1 or (n1 == PART % (NMAX + 1) and n2 == (PART // (NMAX + 1)) % NMAX)
-
-
-def h_send(n: int, offset: int, size: int, use_size: bool, ks: List[int], eintr: int) -> bool:
-    """
-    pre: 0 <= n <= NMAX and -1 <= offset <= NMAX + 1 and -1 <= size <= NMAX + 1 and len(ks) == NMAX + 6 and 0 <= eintr <= 2 and _spart(n, use_size)
-    post: _
-    """
-    n = realize(n)
+def _send(code, want):
+    nd = NDCode(code)
+    n = PART % (NMAX + 1) if NPART > 1 else nd.draw(0, NMAX)
+    use_size = ((PART // (NMAX + 1)) % 2 == 1) if NPART > 1 else nd.flag()
+    offset = nd.draw(-1, NMAX + 1)
+    size = nd.draw(-1, NMAX + 1) if use_size else 0
+    eintr = nd.draw(0, 2)
     payload = bytes(range(65, 65 + n))
-    pipe = WPipe(ks, eintr)
+    pipe = WPipe(nd, eintr)
     tx = _conn(False, True, wpipe=pipe)
     try:
         sz = size if use_size else None
@@ -122,6 +113,8 @@ def h_send(n: int, offset: int, size: int, use_size: bool, ks: List[int], eintr:
             return True
         if not valid:
             return fail('C13:send:invalid-offset-or-size-accepted')
+        if want:
+            return not (pipe.calls >= 3 and eintr and pipe.calls > eintr)      # split writes + an EINTR retry happen
         expect = struct.pack('!i', eff) + payload[offset:offset + eff]
         if pipe.data != expect:
             return fail('C13:send:wire-bytes-differ')
@@ -130,23 +123,20 @@ def h_send(n: int, offset: int, size: int, use_size: bool, ks: List[int], eintr:
         _release(tx)
 
 
-def h_send_twin(n: int, offset: int, size: int, use_size: bool, ks: List[int], eintr: int) -> bool:
+def h_send(code: int) -> bool:
     """
-    pre: 0 <= n <= NMAX and -1 <= offset <= NMAX + 1 and -1 <= size <= NMAX + 1 and len(ks) == NMAX + 6 and 0 <= eintr <= 2 and _spart(n, use_size)
+    pre: 0 <= code < CODEMAX
     post: _
     """
-    n = realize(n)
-    payload = bytes(range(65, 65 + n))
-    pipe = WPipe(ks, eintr)
-    tx = _conn(False, True, wpipe=pipe)
-    try:
-        try:
-            tx.send_bytes(payload, offset, size if use_size else None)
-        except (Prune, ValueError):
-            return True
-        return not (pipe.calls >= 3 and eintr and pipe.calls > eintr)      # split writes + an EINTR retry happen
-    finally:
-        _release(tx)
+    return _send(code, False)
+
+
+def h_send_twin(code: int) -> bool:
+    """
+    pre: 0 <= code < CODEMAX
+    post: _
+    """
+    return _send(code, True)
 
 
 def _recv(n1, n2, cut, ks, eintr, want):
@@ -196,33 +186,46 @@ def _recv(n1, n2, cut, ks, eintr, want):
         _release(rx)
 
 
-def h_recv(n1: int, n2: int, cut: int, ks: List[int], eintr: int) -> bool:
+def _recv_code(code, want, frags=None):
+    nd = NDCode(code)
+    if NPART > 1:
+        n1, n2 = PART % (NMAX + 1), (PART // (NMAX + 1)) % NMAX
+    else:
+        n1, n2 = nd.draw(0, NMAX), nd.draw(0, NMAX - 1)
+    cut = nd.draw(0, 8 + n1 + n2)
+    eintr = nd.draw(0, 2)
+    return _recv(n1, n2, cut, frags if frags is not None else nd, eintr, want)
+
+
+def h_recv(code: int, frags: List[bool]) -> bool:
     """
-    pre: 0 <= n1 <= NMAX and 0 <= n2 <= NMAX - 1 and 0 <= cut <= 8 + n1 + n2 and len(ks) == 2 * NMAX + 9 and 0 <= eintr <= 2 and _rpart(n1, n2)
+    pre: 0 <= code < CODEMAX and len(frags) == NFRAG
     post: _
     """
-    n1 = realize(n1)
-    n2 = realize(n2)
-    return _recv(n1, n2, cut, ks, eintr, False)
+    return _recv_code(code, False, frags if not FULLFRAG else None)
 
 
-def h_recv_twin(n1: int, n2: int, cut: int, ks: List[int], eintr: int) -> bool:
+def h_recv_twin(code: int, frags: List[bool]) -> bool:
     """
-    pre: 0 <= n1 <= NMAX and 0 <= n2 <= NMAX - 1 and 0 <= cut <= 8 + n1 + n2 and len(ks) == 2 * NMAX + 9 and 0 <= eintr <= 2 and _rpart(n1, n2)
+    pre: 0 <= code < CODEMAX and len(frags) == NFRAG
     post: _
     """
-    n1 = realize(n1)
-    n2 = realize(n2)
-    return _recv(n1, n2, cut, ks, eintr, True)
+    return _recv_code(code, True, frags if not FULLFRAG else None)
 
 
-def h_limits(n: int, maxlength: int, bufsize: int, offset: int, into: bool, rw: bool, ks: List[int]) -> bool:
+def h_limits(code: int) -> bool:
     """
-    pre: 0 <= n <= NMAX and -1 <= maxlength <= NMAX + 1 and 0 <= bufsize <= NMAX + 1 and -1 <= offset <= NMAX + 2 and len(ks) == NMAX + 5 and _spart(n, into)
+    pre: 0 <= code < CODEMAX
     post: _
     """
-    n = realize(n)
-    bufsize = realize(bufsize)
+    nd = NDCode(code)
+    n = PART % (NMAX + 1) if NPART > 1 else nd.draw(0, NMAX)
+    into = ((PART // (NMAX + 1)) % 2 == 1) if NPART > 1 else nd.flag()
+    rw = nd.flag()
+    maxlength = nd.draw(-1, NMAX + 1)
+    bufsize = nd.draw(0, NMAX + 1)
+    offset = nd.draw(-1, NMAX + 2)
+    ks = nd if FULLFRAG else [0] * 24        # quick: bounds and state only (fragmentation is the recv obligation's subject)
     msg = bytes(range(65, 65 + n))
     nxt = b'zz'
     stream = struct.pack('!i', n) + msg + struct.pack('!i', 2) + nxt
